@@ -67,7 +67,18 @@ func (c *countCtx) Done() <-chan struct{} {
 	c.left--
 	return nil
 }
-func (c *countCtx) Err() error     { return nil }
+// Err is a poll too: code may ask `ctx.Err() != nil` instead of selecting on Done()
+func (c *countCtx) Err() error {
+	c.mu.Lock()
+	defer c.mu.Unlock()
+	if c.left == 0 {
+		return context.Canceled
+	}
+	if c.left > 0 {
+		c.left--
+	}
+	return nil
+}
 func budget(k int) context.Context { return &countCtx{Context: context.Background(), left: k} }
 
 type env struct {
